@@ -87,12 +87,68 @@ def agg_of(body, op):
     return None
 
 
+class FwdSite:
+    """a call of a same-crate helper that does nothing but hand (addr, msg) to Addr::send / do_send / try_send: looks like the send site itself
+    (callee = what the helper uses, args = the operands handed on, gargs = actor and message type read from the operand types)"""
+    def __init__(self, outer, inner, k, m):
+        self.outer, self.inner = outer, inner
+        self.body, self.bb, self.term = outer.body, outer.bb, outer.term
+        self.callee = inner.callee
+        self.resolved = inner.resolved
+        self.full = inner.full
+        self.args = [outer.args[k - 1], outer.args[m - 1]]
+        self.dst = outer.dst
+        self.line = outer.line
+        self.expanded = outer.expanded
+        self.via = outer.resolved or outer.callee
+
+        def ty(op):
+            p = op_place(op)
+            return (self.body.local_ty(p) or '') if isinstance(p, int) else ''
+        at = re.sub(r'^&(mut )?', '', ty(self.args[0]))
+        mact = re.match(r'^actix::(?:Addr|Recipient)<(.*)>$', at)
+        self.gargs = [mact.group(1) if mact else at, ty(self.args[1])]
+        if inner.callee.startswith('actix::Recipient'):
+            self.gargs = [ty(self.args[1])]
+
+    def where(self):
+        return self.outer.where()
+
+    def __repr__(self):
+        return '<fwd %s via %s @%s>' % (self.callee, self.via, self.where())
+
+
+def _forwarder(body, s):
+    """if site s calls a small local function whose only actix send hands on two of its own parameters: (inner site, addr param no, msg param no)"""
+    fb = body.facts
+    name = s.resolved or s.callee
+    if not name or not name.startswith('rnacos::') and not name.startswith('<rnacos::'):
+        return None
+    f = fb.bodies.get(name)
+    if f is None or f.parent or len(f.blocks) > 60:
+        return None
+    inner = [x for x in f.sites if x.callee and SEND_RX.match(x.callee)]
+    if len(inner) != 1 or len(inner[0].args) < 2:
+        return None
+    da = cfg.strip_calls(f, cfg.describe_operand(f, inner[0].args[0]))
+    dm = cfg.describe_operand(f, inner[0].args[1])
+    if da['k'] == 'arg' and dm['k'] == 'arg' and da['l'] <= len(s.args) and dm['l'] <= len(s.args):
+        return (inner[0], da['l'], dm['l'])
+    return None
+
+
 def sends(body, msg_pat=None, variant=None, actor_pat=None):
-    """actix send/do_send sites; filters on message type (generic arg), constructed variant, actor type"""
+    """actix send/do_send/try_send sites; filters on message type (generic arg), constructed variant, actor type.
+    A same-crate helper that only forwards (addr, msg) to one of them counts as the send it performs (FwdSite)."""
     out = []
     for s in body.sites:
-        if not s.callee or not SEND_RX.match(s.callee):
+        if not s.callee:
             continue
+        if not SEND_RX.match(s.callee):
+            fw = _forwarder(body, s)
+            if fw is None:
+                continue
+            s = FwdSite(s, *fw)
         ga = s.gargs
         actor = ga[0] if s.callee.startswith('actix::Addr') else None
         msg = ga[1] if s.callee.startswith('actix::Addr') and len(ga) > 1 else (ga[0] if ga else None)
